@@ -66,7 +66,7 @@ def run(ctx):
     rng = ctx.rng
     known = {e["class"]: e for e in load_known("C20")}
     hits = {}
-    Ts = [60, 150] if ctx.tier == "quick" else [50, 100, 200, 500]
+    Ts = [120, 250] if ctx.tier == "quick" else [50, 100, 200, 500]
     scs = []
     for T in Ts:
         for pos in POSS:
@@ -84,54 +84,67 @@ def run(ctx):
         for fl in ("sync", "tokio"):
             impl.append(impl_of(sc, pm[1] if pm else [], fl, len(impl))); idx.append((i, fl))
     res = run_scenarios(impl)
-    obad, cbad = [], []
-    for (i, fl), r, isc in zip(idx, res, impl):
-        sc, pm = scs[i], parsed[i]
-        T = sc["T"]
-        ctx.count(); ctx.nontrivial(repr((sc["pos"], sc["kind"], T, fl, len(sc["seq"]))))
-        ctx.cls("%s/%s" % (fl, sc["pos"]))
-        if r.get("results") in ("HANG", "PANIC") or "error" in r:
-            obad.append((i, fl, "client %s on a stall at %s" % (r.get("results", r.get("error")), sc["pos"]), r)); continue
-        ires, ms = r["results"], r.get("ms", [])
-        # which operation meets the stall
-        opnames = ["connect"] + [o[0] for o in sc["ops"]]
-        k = next((j for j, x in enumerate(ires) if x.startswith("err,")), None)
-        if fl == "tokio":
-            timed = k is not None and re.match(r"^err,(network|connection),[^,]*,[^,]*,1", ires[k] or "")
-            if not timed:
-                hits["F20-async-no-io-timeout"] = hits.get("F20-async-no-io-timeout", 0) + 1
-                if max(ms or [0]) < 4 * T:
-                    obad.append((i, fl, "tokio client neither timed out nor waited for the stalled reply (results %s, ms %s)" % (ires, ms), r))
-                continue
-        if k is None:
-            obad.append((i, fl, "a stall at %s (%s) did not make any operation fail: %s" % (sc["pos"], sc["kind"], ires), r)); continue
-        e = ires[k]
-        if not re.match(r"^err,(network|connection),[^,]*,[^,]*,1", e):
-            obad.append((i, fl, "the error of the stalled operation does not identify itself as a timeout: %s (stall at %s)" % (e, sc["pos"]), r))
-        if ms[k] > 2 * T + SLACK:
-            obad.append((i, fl, "stall at %s: the operation took %d ms with timeout %d ms (more than 2T + %d)" % (sc["pos"], ms[k], T, SLACK), r))
-        if ms[k] < T - 25:
-            obad.append((i, fl, "stall at %s: the operation gave up after %d ms, before the timeout %d ms" % (sc["pos"], ms[k], T), r))
-        if sc["pos"].startswith("auth"):
-            continue      # auth() reports the error and leaves the decision to the caller (the transport drops the
-                          # connection: transport-level cases below); the model says the same
-        if k > 0 and not e.endswith(",b1"):
-            obad.append((i, fl, "the stalled connection is not marked broken: %s" % e, r))
-        for j in range(k + 1, len(ires)):
-            if ires[j].startswith(("ok,", "bool,1", "conn,")):
-                obad.append((i, fl, "an operation succeeded on the connection after the stall: %s" % ires[j], r))
-            if ms[j] > 60:
-                obad.append((i, fl, "an operation on the broken connection took %d ms" % ms[j], r))
-        # model correspondence (sync): same results incl. the timeout flag, same client octets
-        if fl == "sync" and pm is not None:
-            exp = list(pm[0])
-            if not exp[0].startswith("conn,"):
-                exp = [exp[0]] + ["skip"] * (len(ires) - 1)
-            if ires != exp:
-                cbad.append((i, fl, "results differ: impl=%s model=%s" % (ires, exp), r))
-            srv = r["servers"][0]
-            if srv is not None and unhx(srv["recv"]) != b"".join(b for _, b in pm[1]):
-                cbad.append((i, fl, "client byte stream differs from the model's", r))
+
+    def judge(triples, count):
+        obad, cbad = [], []
+        for (i, fl), r, isc in triples:
+            sc, pm = scs[i], parsed[i]
+            T = sc["T"]
+            (ctx.count() if count else None); ctx.nontrivial(repr((sc["pos"], sc["kind"], T, fl, len(sc["seq"]))))
+            ctx.cls("%s/%s" % (fl, sc["pos"]))
+            if r.get("results") in ("HANG", "PANIC") or "error" in r:
+                obad.append((i, fl, "client %s on a stall at %s" % (r.get("results", r.get("error")), sc["pos"]), r)); continue
+            ires, ms = r["results"], r.get("ms", [])
+            # which operation meets the stall
+            opnames = ["connect"] + [o[0] for o in sc["ops"]]
+            k = next((j for j, x in enumerate(ires) if x.startswith("err,")), None)
+            if fl == "tokio":
+                timed = k is not None and re.match(r"^err,(network|connection),[^,]*,[^,]*,1", ires[k] or "")
+                if not timed:
+                    hits["F20-async-no-io-timeout"] = hits.get("F20-async-no-io-timeout", 0) + 1
+                    if max(ms or [0]) < 4 * T:
+                        obad.append((i, fl, "tokio client neither timed out nor waited for the stalled reply (results %s, ms %s)" % (ires, ms), r))
+                    continue
+            if k is None:
+                obad.append((i, fl, "a stall at %s (%s) did not make any operation fail: %s" % (sc["pos"], sc["kind"], ires), r)); continue
+            e = ires[k]
+            if not re.match(r"^err,(network|connection),[^,]*,[^,]*,1", e):
+                obad.append((i, fl, "the error of the stalled operation does not identify itself as a timeout: %s (stall at %s)" % (e, sc["pos"]), r))
+            if ms[k] > 2 * T + SLACK:
+                obad.append((i, fl, "stall at %s: the operation took %d ms with timeout %d ms (more than 2T + %d)" % (sc["pos"], ms[k], T, SLACK), r))
+            if ms[k] < T - 25:
+                obad.append((i, fl, "stall at %s: the operation gave up after %d ms, before the timeout %d ms" % (sc["pos"], ms[k], T), r))
+            if sc["pos"].startswith("auth"):
+                continue      # auth() reports the error and leaves the decision to the caller (the transport drops the
+                              # connection: transport-level cases below); the model says the same
+            if k > 0 and not e.endswith(",b1"):
+                obad.append((i, fl, "the stalled connection is not marked broken: %s" % e, r))
+            for j in range(k + 1, len(ires)):
+                if ires[j].startswith(("ok,", "bool,1", "conn,")):
+                    obad.append((i, fl, "an operation succeeded on the connection after the stall: %s" % ires[j], r))
+                if ms[j] > 60:
+                    obad.append((i, fl, "an operation on the broken connection took %d ms" % ms[j], r))
+            # model correspondence (sync): same results incl. the timeout flag, same client octets
+            if fl == "sync" and pm is not None:
+                exp = list(pm[0])
+                if not exp[0].startswith("conn,"):
+                    exp = [exp[0]] + ["skip"] * (len(ires) - 1)
+                if ires != exp:
+                    cbad.append((i, fl, "results differ: impl=%s model=%s" % (ires, exp), r))
+                srv = r["servers"][0]
+                if srv is not None and unhx(srv["recv"]) != b"".join(b for _, b in pm[1]):
+                    cbad.append((i, fl, "client byte stream differs from the model's", r))
+
+        return obad, cbad
+
+    obad, cbad = judge(list(zip(idx, res, impl)), True)
+    if obad or cbad:
+        # a scheduling hiccup longer than the timeout looks like a stall in the wrong place: run the suspects
+        # once more, one at a time, and keep only what fails again
+        sus = sorted(set(k for k, ((i, fl), r, isc) in enumerate(zip(idx, res, impl)) if any(x[0] == i and x[1] == fl for x in obad + cbad)))
+        again = run_scenarios([impl[k] for k in sus], threads=1)
+        obad, cbad = judge([(idx[k], r2, impl[k]) for k, r2 in zip(sus, again)], False)
+        ctx.cov["oracle"]["reruns_after_first_pass"] = len(sus)
     # ---- transports: the stalled connection is not reused, the next send succeeds (fresh and pooled)
     pscs = []
     for T in Ts[:2]:
